@@ -24,6 +24,22 @@ CLAIMED = {
   LEMMA + "One send over the product reference provenance x target state on the real tell/findMailbox/HandleEnvelop/guard/eventStream code: exactly one fate (processed, stashed, one dead letter); bounded work after system stop.",
   "One deterministic delivery schedule; recording mailboxes; the (provenance, state) cells are enumerated by hand.",
   "DESIGN.md §3 C03"),
+ "C04": ("symgo+tsgen", "model_checking", TECH_B + "; registration lemmas: " + TECH_A,
+  "The real Future (EnqueueMessage/Close/PipeTo/Result) under every interleaving within K steps of a replier, the timeout closer, a PipeTo caller and a waiter: one-shot completion, forwarder told exactly once with the final result, nobody blocked, exactly one of {reply, timeout}; plus, on the real Context.ask/appendFuture/removeFuture/doKill, 1..3 outstanding Asks completed in a solver-chosen order by reply / asker death / timeout-then-late-reply: own reply only, actor-dead on asker death, no registration left.",
+  "One future, one forwarder; timer replaced by a thread (not-earlier-than-timeout NOT decided); <=3 Asks of one asker; deterministic delivery inside the world.",
+  "DESIGN.md §3 C04"),
+ "C07": ("symgo+tsgen", "model_checking", TECH_B + "; status table: " + TECH_A,
+  "Real Start() run in setup, its guardian goroutine captured as a thread; two concurrent Stop() calls, root termination, optional stop timeout and external context cancel under every interleaving within K steps: every Stop returns, no goroutine blocked forever, one winner, status stopped; plus every sequence of <=3 Start/Stop calls follows the error table.",
+  "Root Kill, Scheduler.Stop, time.After summarised; no remoting/cluster in the Start chain; two Stop callers.",
+  "DESIGN.md §3 C07"),
+ "C15": ("symgo", "model_checking", TECH_A,
+  LEMMA + "Each ActorRef-taking operation (Tell, Kill immediate/poison, Watch, Unwatch, Ping, Ask/Reply, PipeTo) issued across two harness systems joined by an in-memory wire runs the real findMailbox -> remoting mailbox -> EncodeEnvelopWithRemoting -> DecodeEnvelopWithRemoting -> HandleRemotingEnvelop path with symbolic message contents; same observable effect as the local run.",
+  "One deterministic delivery schedule; sockets/handshake replaced by an in-memory connection; harness codec for the user type; no-codec configuration not run.",
+  "DESIGN.md §3 C15"),
+ "C20": ("symgo", "model_checking", TECH_A,
+  LEMMA + "Solver-chosen sequences of Once/Loop/Cancel/Clear/Kill/restart over 2 references x 2 actors with solver-chosen delays against a virtual clock on the real actor Scheduler / onScheduler / cleanupScheduler: exact firing counts, never before the delay, nothing after cancel/clear/death/restart, not-found for unknown references, original message value; invalid cron rejected and schedules nothing.",
+  "go-quartz replaced by a fake with its documented contract; ops<=3 (4 thorough); cancellation racing the firing goroutine not quantified.",
+  "DESIGN.md §3 C20"),
  "C05": ("symgo", "model_checking", TECH_A,
   LEMMA + "Dead actors run nothing; restart under every hook-outcome combination (fresh instance, behaviour reset, exactly one OnLaunch to the restarted actor only, zombie on hook failure); OnLaunch first and prelaunch failure on the real ActorOf.",
   "One deterministic delivery schedule; small trees; hooks modelled by harness actors.",
